@@ -506,7 +506,7 @@ def inject_fault(rng, gen, forms):
         fault = type_fault(rng)
     else:
         fault = rng.choice(FAULTS[kind])
-    ctx = rng.choice(["direct", "tail", "apply", "library", "operand", "nested-tail", "body-non-last"])
+    ctx = rng.choice(["direct", "tail", "apply", "library", "operand", "nested-tail", "body-non-last", "set-value", "operand-before-effect"])
     if ctx == "direct":
         form = fault
     elif ctx == "tail":
@@ -519,6 +519,15 @@ def inject_fault(rng, gen, forms):
         # not the last expression of a body: evaluated for effect, and still evaluated
         form = rng.choice(["((lambda () %s 1))", "(let () %s 2)", "(begin %s 3)", "((lambda (t) 0 %s t) 4)", "(let ((t 1)) %s t)",
                            "(when #t %s 5)", "(cond (#t %s 6))"]) % fault
+    elif ctx == "set-value":
+        # the value expression of an assignment: the error is the value expression's (kind AND position), not the target's
+        form = rng.choice(["(let ((sv 0)) (set! sv %s) sv)", "((lambda (sv) (set! sv (+ 1 %s)) sv) 0)",
+                           "(let ((sv 0))\n  (set! sv\n    %s)\n  sv)"]).replace("\\n", " ") % fault
+    elif ctx == "operand-before-effect":
+        # a faulting operand FOLLOWED by operands with effects: evaluation stops at the fault, the later operands never run
+        # (effect-zz is defined by the programs that probe it; elsewhere the assignment simply must not be reached)
+        form = rng.choice(["(list 0 %s (set! effect-zz 1))", "((lambda (a b c) a) 0 %s (set! effect-zz 2))",
+                           "(+ 1 %s (begin (set! effect-zz 3) 1))", "(vector %s (set! effect-zz 4) (set! effect-zz 5))"]) % fault
     elif ctx == "library":
         form = "(map (lambda (t) %s) '(1 2))" % fault
     else:
